@@ -1,7 +1,7 @@
 (* C06 — vineyard swaps and cell removals leave the matrix as if rebuilt from scratch.
    Property theorems only (proofs in Reduce.v / ReduceExec.v): "as if rebuilt" = after every step the exposed state is a
    decomposition accepted by the verified checker of the boundary matrix of the CURRENT order, whose pairing is unique. *)
-From Coq Require Import ZArith List Znumtheory.
+From Coq Require Import ZArith List Znumtheory Lia.
 Require Import Reduce ReduceExec.
 Local Open Scope Z_scope.
 
@@ -46,3 +46,81 @@ Print Assumptions C06_low_of_combination.
    for every input instead: certified_lows returns None otherwise and the check reports an oracle failure). *)
 Definition C06_reduce_total_full : Prop :=
   forall p D, prime p -> (forall c, In c D -> length c = length D) -> certified_lows p D <> None.
+
+(* ---------------------------------------------------------------------------------------------------------------------
+   The transposition of two consecutive cells i, i+1 (VineSwap.v).  [pmat i M] = M with rows i,i+1 and columns i,i+1
+   exchanged, so [pmat i D] is the boundary matrix of the new order. *)
+Require Import ReduceAlg VineSwap.
+
+(* if column i+1 of R does not use column i of D (V[i][i+1] = 0), the conjugated R is again D'.V' with V' upper triangular *)
+Theorem C06_vine_swap_keeps_decomposition : forall p, prime p -> forall n i, (S i < n)%nat -> forall D R,
+  tri p n D R ->
+  (exists c, zm p (c i) /\ ~ zm p (c (S i)) /\ veq p n (R (S i)) (comb D c (S (S i)))) ->
+  tri p n (pmat i D) (pmat i R).
+Proof. exact vine_swap_tri. Qed.
+Print Assumptions C06_vine_swap_keeps_decomposition.
+
+(* ... and one addition of column i to column i+1 makes V[i][i+1] zero without leaving the decompositions of D *)
+Theorem C06_vine_swap_preparation : forall p, prime p -> forall n i, (S i < n)%nat -> forall D R,
+  tri p n D R ->
+  exists c0, tri p n D (col_add R (S i) i c0) /\
+    exists c, zm p (c i) /\ ~ zm p (c (S i)) /\ veq p n (col_add R (S i) i c0 (S i)) (comb D c (S (S i))).
+Proof. exact kill_coefficient. Qed.
+Print Assumptions C06_vine_swap_preparation.
+
+(* the conjugated R stays reduced except in ONE configuration: a column with low i+1 and a non-zero entry in row i together
+   with a column with low i *)
+Theorem C06_vine_swap_keeps_reduced : forall p n i, (S i < n)%nat -> forall R,
+  reduced p n R -> ~ interacting p n i R -> reduced p n (pmat i R).
+Proof. exact swap_keeps_reduced. Qed.
+Print Assumptions C06_vine_swap_keeps_reduced.
+
+(* so, outside that configuration, the swapped state is exactly what any rebuild from scratch of the new order finds *)
+Theorem C06_vine_swap_as_if_rebuilt_partial : forall p, prime p -> forall n i, (S i < n)%nat -> forall D R R',
+  tri p n D R -> reduced p n R ->
+  (exists c, zm p (c i) /\ ~ zm p (c (S i)) /\ veq p n (R (S i)) (comb D c (S (S i)))) ->
+  ~ interacting p n i R ->
+  tri p n (pmat i D) R' -> reduced p n R' ->
+  forall j, (j < n)%nat ->
+    (forall m, is_low p n (pmat i R j) m <-> is_low p n (R' j) m) /\ (is_zero p n (pmat i R j) <-> is_zero p n (R' j)).
+Proof. exact vine_swap_as_if_rebuilt. Qed.
+Print Assumptions C06_vine_swap_as_if_rebuilt_partial.
+
+(* where every low goes (the relabelling of the pairing) *)
+Theorem C06_vine_swap_relabels : forall p n i, (S i < n)%nat -> forall v m,
+  is_low p n v m -> exists m', moved p i v m m' /\ is_low p n (pvec i v) m'.
+Proof. exact low_after_swap. Qed.
+Print Assumptions C06_vine_swap_relabels.
+
+(* Full statement NOT proved: for boundary matrices (strictly upper triangular before and after the exchange: neither cell is
+   a face of the other) the update of the implementation - at most one column addition before the exchange
+   (C06_vine_swap_preparation), and after it at most one addition between the two exchanged columns (when the preparation
+   gave them the same low) and one between the two columns of the interacting configuration - always ends in a reduced
+   decomposition of the new order.  Proved above: the exchange itself, the preparation, and every configuration that needs no
+   addition afterwards.  Every state the implementation reaches is certified by check_any instead (C06_check_RU_sound). *)
+Definition C06_vine_swap_full : Prop :=
+  forall p, prime p -> forall n i, (S i < n)%nat -> forall D R,
+  (forall j r, (j <= r)%nat -> zm p (D j r)) -> (forall j r, (j <= r)%nat -> zm p (pmat i D j r)) ->
+  tri p n D R -> reduced p n R ->
+  exists c0 c1 c2 a b,
+    let R1 := pmat i (col_add R (S i) i c0) in
+    let R2 := col_add R1 (S i) i c1 in
+    let R3 := col_add R2 a b c2 in
+    (b < a)%nat /\ tri p n (pmat i D) R3 /\ reduced p n R3.
+
+(* non-vacuity: two vertices and the edge joining them over Z_2, the two vertices exchanged *)
+Example C06_vine_swap_hypotheses_satisfiable :
+  let D : mat := fun j r => if Nat.eqb j 2 then (if Nat.ltb r 2 then 1 else 0) else 0 in
+  tri 2 3 D D /\ reduced 2 3 D /\
+  (exists c, zm 2 (c O) /\ ~ zm 2 (c 1%nat) /\ veq 2 3 (D 1%nat) (comb D c 2)) /\ ~ interacting 2 3 0 D.
+Proof.
+  cbv zeta. split; [apply tri_refl; exact prime_2|]. split; [|split].
+  - intros j1 j2 m Hj1 Hj2 Hne [Hm [H1 _]] [_ [H2 _]].
+    assert (j1 = 2%nat) by (destruct j1 as [|[|[|]]]; try lia; exfalso; apply H1; reflexivity).
+    assert (j2 = 2%nat) by (destruct j2 as [|[|[|]]]; try lia; exfalso; apply H2; reflexivity). lia.
+  - exists (fun k => if Nat.eqb k 1 then 1 else 0). split; [reflexivity|]. split; [intros H; discriminate H|].
+    intros r Hr. reflexivity.
+  - intros [a [b [Ha [Hb [_ [_ [_ [Hnz Hz]]]]]]]].
+    destruct b as [|[|[|]]]; try lia; try (apply Hnz; reflexivity).
+    specialize (Hz 1%nat ltac:(lia)). discriminate Hz.
+Qed.
